@@ -3,10 +3,13 @@ package main
 import (
 	"flag"
 	"fmt"
+	"io"
+	"log"
 	"os"
 
 	"github.com/spq/pkappa2/verifx/c01"
 	"github.com/spq/pkappa2/verifx/c03"
+	"github.com/spq/pkappa2/verifx/c07"
 	"github.com/spq/pkappa2/verifx/c14"
 	"github.com/spq/pkappa2/verifx/c17"
 	"github.com/spq/pkappa2/verifx/c18"
@@ -17,6 +20,7 @@ func main() {
 	prop := flag.String("prop", "", "property id")
 	tier := flag.String("tier", "quick", "quick|thorough")
 	flag.Parse()
+	log.SetOutput(io.Discard) // the code under test logs every import/merge
 	if t := os.Getenv("VERIF_TIER"); t != "" && *tier == "" {
 		*tier = t
 	}
@@ -28,6 +32,8 @@ func main() {
 		code = c01.Run(*tier)
 	case "C03":
 		code = c03.Run(*tier)
+	case "C07":
+		code = c07.Run(*tier)
 	case "C14":
 		code = c14.Run(*tier)
 	case "C18":
